@@ -596,7 +596,7 @@ def oracle_get(world, fe, r, acc, ae, names, compression, case):
             if not hint and restr is not None:
                 got, want = set(blocks(body)), set(blocks(exp))
                 def series(bs):
-                    return sorted((l.split(b'}')[0] + b'}' if l.startswith(b'{') else l.split(b' ')[0].split(b'{')[0]).decode('latin-1')
+                    return sorted((l.split(b'}')[0] + b'}' if l.startswith(b'{') else l.split(b' ')[0].split(b'{')[0]).decode('utf-8', 'replace')
                                   for b in bs for l in b.splitlines() if l and not l.startswith(b'#'))
                 extra, miss = series(got - want), series(want - got)
                 hint = ' (family blocks with series %s are not the expected ones%s)' % (
